@@ -97,6 +97,19 @@ theorem wrapper_adds_nothing (env : Env) (orc : Nat → Val → Raw) (horc : ∀
       | none => exact hinv
       | some c => rw [checkArguments_some_tc env orc horc f args kw hc c hca]; rfl
 
+/-- (was: `pedantic(obj.m)(a=1)` ended in IndexError, repaired by 86bfec9) a bound method is no instance method for the call
+    layer, whatever `getfullargspec` lists first … -/
+theorem cfg_instanceMethod : instanceMethodExcludesBound = true := by decide
+theorem bound_is_not_instance_method (firstParamIsSelf : Bool) : isInstanceMethodOf firstParamIsSelf true = false := by
+  simp [isInstanceMethodOf, cfg_instanceMethod]
+/-- … so for a bound method handed to `pedantic` / `require_kwargs` the guard "Python itself supplies self" of
+    `wrapper_adds_nothing` is met by every call, also one without positional arguments -/
+theorem wrapper_adds_nothing_bound_method (env : Env) (orc : Nat → Val → Raw) (horc : ∀ k v, orc k v ≠ .raisedTV) (f : Fn)
+    (s : Bool) (hb : f.firstIsSelf = isInstanceMethodOf s true) (args : List Val) (kw : List (NameId × Val)) (body : BodyOut)
+    (hc : f.clazzFails args = false) (hbinds : f.binds (fwdPosOf f args).length (kw.map (·.1)) = true) :
+    (runCall env orc f args kw body).caller.allowed = true :=
+  wrapper_adds_nothing env orc horc f args kw body (by rw [hb, bound_is_not_instance_method]; rfl) hc hbinds
+
 /-- a module-level function that really is decorated `@staticmethod @pedantic` (its qualified name has no dot).  The body-text
     variant of this witness - a comment mentioning `@staticmethod` - is repaired: see `header_flags_ignore_body` (C04). -/
 def witnessStaticText : Fn :=
